@@ -360,6 +360,8 @@ def generate(ctx):
         cases.append(api_case(ctx.rng))
     for _ in range(ctx.n(80, 800)):
         cases.append(api_case_mrins(ctx.rng))
+    for _ in range(ctx.n(16, 200)):       # numeric arrays (sub-variable ids in non-ascending payload order)
+        cases.append(dict(api_case(ctx.rng), layout="numarr_x_cat"))
     from props import shim_api
     for _ in range(ctx.n(40, 600)):
         cases.append(shim_api.keys_case(ctx.rng))
